@@ -1,0 +1,14 @@
+//go:build verif
+
+package token
+
+// Contracts for the verifier in /verif (comment-only; compiled only with -tags verif).
+
+//@ func LookupIdentifier(identifier string) (result Type)
+//@   modifies nothing
+//@   ensures @C14 lookup.def: result == (has(keywords, identifier) ? keywords[identifier] : IDENT)
+//@   panics never
+
+// The keyword table is filled once by the package initialiser and never written again: it maps
+// words to keyword token types only.
+//@ ginv @C14 keywords.kinds: token.keywords != nil && forall k string :: has(token.keywords, k) ==> token.keywords[k] != token.SLASH && token.keywords[k] != token.SLASHEQUALS && token.keywords[k] != token.REGEXP && token.keywords[k] != token.EOF && token.keywords[k] != token.ILLEGAL
